@@ -63,6 +63,10 @@ def render(mode, prog, spelling, context):
             elif k == "generic":
                 spec += [f"{_kw('interface', up)} {n}", f"  {_kw('module procedure', up)} {n}_impl", f"{_kw('end interface', up)} {n}"]
                 procs += [f"subroutine {n}_impl(a)", "  integer :: a", f"end subroutine {n}_impl"]
+            elif k == "genbody":
+                spec += [f"{_kw('interface', up)} {n}", f"  {_kw('subroutine', up)} {n}_ext(a)", "    integer :: a", f"  {_kw('end subroutine', up)} {n}_ext",
+                         f"  {_kw('module procedure', up)} {n}_impl", f"{_kw('end interface', up)} {n}"]
+                procs += [f"subroutine {n}_impl(a)", "  real :: a", f"end subroutine {n}_impl"]
             elif k == "operator":
                 spec += [f"{_kw('interface operator', up)}(.{n}.)", f"  {_kw('module procedure', up)} {n}_impl", f"{_kw('end interface', up)}"]
                 procs += [f"function {n}_impl(a, b) result(r)", "  integer, intent(in) :: a, b", "  integer :: r", "  r = a + b",
@@ -150,6 +154,9 @@ def observe(mode, text):
             n = e.name.lower()
             m = re.fullmatch(r"operator\(\.(\w+)\.\)", n)
             obs[m.group(1) if m else n] = e.permission
+            if coll == "interfaces":
+                for pr in list(getattr(e, "subroutines", []) or []) + list(getattr(e, "functions", []) or []):
+                    obs[pr.name.lower()] = pr.permission          # specific procedures declared by interface bodies
     return obs
 
 
@@ -196,6 +203,23 @@ def judge(case, results, ck: Check):
                              extra={"source": text})
 
 
+def judge_specifics(case, results, ck: Check):
+    out = case["out"]
+    for spelling, context, text, obs in results:
+        if "_error" in obs:
+            continue
+        for n, allowed in out.get("sref", {}).items():
+            got = obs.get(n + "_ext")
+            if got in allowed:
+                continue
+            if got is not None and got == out["simpl"].get(n) and n in out["slate"] and ck.known_finding("C04-F1"):
+                continue
+            ck.violation("permission", {"mode": case["mode"], "prog": case["prog"], "spelling": spelling, "context": context},
+                         expected={n + "_ext": sorted(allowed)}, observed=obs,
+                         detail=f"specific procedure {n}_ext (interface body inside generic interface {n}): FORD says {got!r}, Fortran's rules give {sorted(allowed)}",
+                         extra={"source": text})
+
+
 def _j(ref):
     return {k: sorted(v) for k, v in ref.items()}
 
@@ -220,7 +244,8 @@ def _parse_block(args):
     out = st["out"]
     return {"mode": mode, "prog": [dict(x) for x in st["prog"]],
             "out": {"ref": {k: sorted(v) for k, v in out["ref"].items()}, "impl": dict(out["impl"]),
-                    "late": sorted(out["late"]), "pslot": sorted(out["pslot"]), "tref": out["tref"]}}
+                    "late": sorted(out["late"]), "pslot": sorted(out["pslot"]), "tref": out["tref"],
+                    "sref": {k: sorted(v) for k, v in dict(out["sref"]).items()}, "simpl": dict(out["simpl"]), "slate": sorted(out["slate"])}}
 
 
 def generate(scratch, mode, nstmts, ck):
@@ -265,13 +290,14 @@ def run(tier, seed, ck: Check):
         results = pool.pmap(evaluate, cases, chunksize=50)
         for c, rs in zip(cases, results):
             judge(c, rs, ck)
+            judge_specifics(c, rs, ck)
             if nontrivial(c):
                 ck.nontrivial_case(json.dumps(c["prog"], sort_keys=True))
         for c in cases[:: max(1, len(cases) // 4)][:4]:
             ck.sample({"mode": c["mode"], "prog": c["prog"], "ref": c["out"]["ref"], "source": render(c["mode"], c["prog"], 0, 0)})
         ck.coverage["traces_validated_against_impl"] = 0
         ck.coverage["exhaustive_over"] = ("all specification parts of <=MaxStmts statements over 2 names: scope default {none,public,private} at every "
-                                         "position x declaration attribute x access/protected statement before or after the declaration x 8 module-level "
+                                         "position x declaration attribute x access/protected statement before or after the declaration x 9 module-level "
                                          "entity kinds; types: head attribute x component-part PRIVATE x components x binding-part PRIVATE x 4 binding forms")
         ck.assumptions += [
             "accessibility is given at most once per entity (Fortran constraint), so attribute + access statement for the same entity are not combined",
